@@ -398,6 +398,11 @@ def check_scope(ex, ref_bytes, ref_recs):
     # reader alone, on reference bytes
     recs, rerr, _, _ = read_all(ref_bytes)
     v.extend(_cmp_recs('scope-reader', last, recs, rerr, ref_recs))
+    # reader alone, consumer edits every yielded record in place
+    from mc.observe import read_all_hostile
+    recs3, rerr3 = read_all_hostile(ref_bytes)
+    v.extend(_cmp_recs('scope-reader-consumer-edits', last, recs3, rerr3,
+                       ref_recs))
     # reader alone, raw-JSON foreign variant
     if any(c[0] == 'meta' for c in ex.calls):
         rb = raw_json_variant(ex.calls, ex.root)
